@@ -58,6 +58,10 @@ func (e C18Engine) genKind(r *Run, kind string) (Step, bool) {
 		return e.genGovBranch(r)
 	case "govcommit":
 		return e.genGovCommit(r)
+	case "govmulti":
+		return e.genGovMulti(r, false)
+	case "govmulticommit":
+		return e.genGovMulti(r, true)
 	case "gasparam":
 		// real governance changes the gas limit of inbound bridge calls (MsgUpdateParams)
 		g := []uint64{30_000_000, 3_000_000, 400_000, 90_000, 30_000, 1}[r.Rng.IntN(6)]
